@@ -42,31 +42,43 @@ func pkgRelDir(pkg string) string {
 	return strings.TrimPrefix(strings.TrimPrefix(pkg, "github.com/specterops/dawgs"), "/")
 }
 
-// testSource generates the native replay test for a harness entry.
-func testSource(h HarnessSpec, args []int) string {
-	var as []string
-	for _, a := range args {
-		as = append(as, fmt.Sprint(a))
+// testSource generates the native replay test of a package: one test that dispatches on
+// VERIF_ENTRY to the harness entry points registered for that package (so one compiled
+// test binary serves all harnesses of the package during a check run).
+func testSource(pkgName string, entries []entrySig) string {
+	var sb strings.Builder
+	fmt.Fprintf(&sb, "//go:build verif\n\npackage %s\n\nimport (\n\t\"os\"\n\t\"strconv\"\n\t\"strings\"\n\t\"testing\"\n\n\t\"github.com/specterops/dawgs/internal/verifrt\"\n)\n\n", pkgName)
+	sb.WriteString("func TestVerifReplay(t *testing.T) {\n\tvar a []int\n\tfor _, f := range strings.Split(os.Getenv(\"VERIF_ARGS\"), \",\") {\n\t\tif f != \"\" {\n\t\t\tv, _ := strconv.Atoi(f)\n\t\t\ta = append(a, v)\n\t\t}\n\t}\n\t_ = a\n\tswitch os.Getenv(\"VERIF_ENTRY\") {\n")
+	for _, e := range entries {
+		var as []string
+		for i := 0; i < e.nargs; i++ {
+			as = append(as, fmt.Sprintf("a[%d]", i))
+		}
+		fmt.Fprintf(&sb, "\tcase %q:\n\t\tverifrt.ReplayAll(t, func() { %s(%s) })\n", e.name, e.name, strings.Join(as, ", "))
 	}
-	pkgName := filepath.Base(h.Pkg)
-	if n := harnessPackageName(h); n != "" {
-		pkgName = n
+	sb.WriteString("\tdefault:\n\t\tt.Fatalf(\"unknown entry %q\", os.Getenv(\"VERIF_ENTRY\"))\n\t}\n}\n")
+	return sb.String()
+}
+
+type entrySig struct {
+	name  string
+	nargs int
+}
+
+// pkgEntries: entry points per package for the current run (filled by cmdRun / cmdReplay).
+var pkgEntries = map[string][]entrySig{}
+
+func registerEntry(h HarnessSpec, nargs int) {
+	for _, e := range pkgEntries[h.Pkg] {
+		if e.name == h.Entry {
+			return
+		}
 	}
-	return fmt.Sprintf(`//go:build verif
-
-package %s
-
-import (
-	"testing"
-
-	"github.com/specterops/dawgs/internal/verifrt"
-)
-
-func TestVerifReplay(t *testing.T) {
-	verifrt.ReplayAll(t, func() { %s(%s) })
+	pkgEntries[h.Pkg] = append(pkgEntries[h.Pkg], entrySig{h.Entry, nargs})
 }
-`, pkgName, h.Entry, strings.Join(as, ", "))
-}
+
+// builtTests: package -> compiled test binary ("" = build failed, with the log).
+var builtTests = map[string][2]string{}
 
 // harnessPackageName reads the package clause of the first harness file.
 func harnessPackageName(h HarnessSpec) string {
@@ -92,34 +104,54 @@ var lastObserved [][]string
 
 func runNative(h HarnessSpec, args []int, realOv map[string]string, files []string, timeout time.Duration) ([]string, string) {
 	wd := workDir()
-	testPath := filepath.Join(wd, "zz_verif_replay_test.go")
-	os.WriteFile(testPath, []byte(testSource(h, args)), 0o644)
-	rep := map[string]string{}
-	for v, r := range realOv {
-		rep[v] = r
-	}
-	rep[filepath.Join(repoRoot, pkgRelDir(h.Pkg), "zz_verif_replay_test.go")] = testPath
-	ovb, _ := json.Marshal(map[string]any{"Replace": rep})
-	ovPath := filepath.Join(wd, "overlay.json")
-	os.WriteFile(ovPath, ovb, 0o644)
+	registerEntry(h, len(args))
 	ctx, cancel := context.WithTimeout(context.Background(), timeout+180*time.Second)
 	defer cancel()
-	// compile the test binary (go test -c never changes into the package directory, which
-	// matters for overlay-only harness packages), then run it
-	bin := filepath.Join(wd, "replay.test")
-	build := exec.CommandContext(ctx, "go", "test", "-c", "-vet=off", "-tags", "verif", "-overlay", ovPath, "-o", bin, "./"+pkgRelDir(h.Pkg)+"/")
-	build.Dir = repoRoot
 	var out bytes.Buffer
-	build.Stdout, build.Stderr = &out, &out
-	if err := build.Run(); err != nil {
+	built, ok := builtTests[h.Pkg]
+	if !ok {
+		pkgName := filepath.Base(h.Pkg)
+		if n := harnessPackageName(h); n != "" {
+			pkgName = n
+		}
+		testPath := filepath.Join(wd, "zz_verif_replay_"+sanitizeName(pkgName)+"_test.go")
+		os.WriteFile(testPath, []byte(testSource(pkgName, pkgEntries[h.Pkg])), 0o644)
+		rep := map[string]string{}
+		for v, r := range realOv {
+			rep[v] = r
+		}
+		rep[filepath.Join(repoRoot, pkgRelDir(h.Pkg), "zz_verif_replay_test.go")] = testPath
+		ovb, _ := json.Marshal(map[string]any{"Replace": rep})
+		ovPath := filepath.Join(wd, "overlay_"+sanitizeName(pkgName)+".json")
+		os.WriteFile(ovPath, ovb, 0o644)
+		// compile the test binary (go test -c never changes into the package directory,
+		// which matters for overlay-only harness packages)
+		bin := filepath.Join(wd, "replay_"+sanitizeName(strings.ReplaceAll(pkgRelDir(h.Pkg), "/", "_"))+".test")
+		build := exec.CommandContext(ctx, "go", "test", "-c", "-vet=off", "-tags", "verif", "-overlay", ovPath, "-o", bin, "./"+pkgRelDir(h.Pkg)+"/")
+		build.Dir = repoRoot
+		var bout bytes.Buffer
+		build.Stdout, build.Stderr = &bout, &bout
+		if err := build.Run(); err != nil {
+			built = [2]string{"", bout.String()}
+		} else {
+			built = [2]string{bin, ""}
+		}
+		builtTests[h.Pkg] = built
+	}
+	if built[0] == "" {
+		out.WriteString(built[1])
 		out.WriteString("\n[build failed]\n")
 	} else {
-		cmd := exec.CommandContext(ctx, bin, "-test.v", "-test.run", "^TestVerifReplay$", "-test.timeout", fmt.Sprintf("%ds", int(timeout.Seconds())))
+		cmd := exec.CommandContext(ctx, built[0], "-test.v", "-test.run", "^TestVerifReplay$", "-test.timeout", fmt.Sprintf("%ds", int(timeout.Seconds())))
 		cmd.Dir = repoRoot
 		if st, err := os.Stat(filepath.Join(repoRoot, pkgRelDir(h.Pkg))); err == nil && st.IsDir() {
 			cmd.Dir = filepath.Join(repoRoot, pkgRelDir(h.Pkg))
 		}
-		cmd.Env = append(os.Environ(), "VERIF_REPLAY_LIST="+strings.Join(files, ","))
+		var as []string
+		for _, a := range args {
+			as = append(as, fmt.Sprint(a))
+		}
+		cmd.Env = append(os.Environ(), "VERIF_REPLAY_LIST="+strings.Join(files, ","), "VERIF_ENTRY="+h.Entry, "VERIF_ARGS="+strings.Join(as, ","))
 		cmd.Stdout, cmd.Stderr = &out, &out
 		cmd.Run()
 	}
